@@ -1,7 +1,77 @@
 import BigDec.Model.Fmt
-/-! # C04 (theorems under construction) -/
+import BigDec.Model.Parse
+import BigDec.Proofs.Render
+import BigDec.Proofs.Value
+import BigDec.Props.C05
+/-! # C04 — every textual rendering parses back to the same decimal
+
+`Fmt.*` is the character-level model of src/impl_fmt.rs (tied to the code text-exactly by the
+correspondence check).  The theorems below read the produced text back with the *model of the real
+parser* (`Parse.parseDec`, which by `C05_parse_eq_spec` is the grammar) and show that the result is
+the very same `(int, scale)` pair — for every decimal, not a sample.  Hypotheses: the scale is an
+`i64` (it always is in the Rust type) and the unscaled integer has fewer than 2^64 digits (it always
+has: memory).  Renderings covered for all inputs: `to_scientific_notation`, `to_plain_string`
+(non-negative scale; a negative scale is the recorded finding K1), `{:e}`/`{:E}`, and `Display`
+(all three notations it chooses between; an integer written out with its zeros reads back with
+scale 0, the exemption the property names).  Still partial: engineering notation and the flagged
+forms are established per generated input only. -/
 namespace BigDec
+open Fmt Parse
+
 theorem C04_padIntegral_no_flags (nonneg : Bool) (buf : List Char) :
     Fmt.padIntegral {} nonneg buf = (if !nonneg then ['-'] else []) ++ buf := by
   simp [Fmt.padIntegral]
+
+/-- a scale that fits `i64` and a digit count that fits memory -/
+def Dec.Storable (d : Dec) : Prop :=
+  -(2 ^ 63 : Int) ≤ d.scale ∧ d.scale < 2 ^ 63 ∧ numDigits d.int.natAbs < 2 ^ 64
+
+theorem C04_scientific_roundtrip (d : Dec) (h : d.Storable) :
+    parseDec (toBytes (scientific d)) 10 = some d := by
+  rw [C05_parse_eq_spec]; exact scientific_roundtrip d ⟨h.1, h.2.1⟩ h.2.2
+
+theorem C04_plain_roundtrip (d : Dec) (h : d.Storable) (hs : 0 ≤ d.scale) :
+    parseDec (toBytes (plain d)) 10 = some d := by
+  rw [C05_parse_eq_spec]; exact plain_roundtrip d ⟨hs, h.2.1⟩
+
+theorem C04_exp_roundtrip (cfg : Config) (d : Dec) (h : d.Storable) :
+    parseDec (toBytes (lowerExp cfg {} d 'e')) 10 = some d ∧
+    parseDec (toBytes (lowerExp cfg {} d 'E')) 10 = some d := by
+  rw [C05_parse_eq_spec, C05_parse_eq_spec]
+  exact ⟨lowerExp_roundtrip cfg d 'e' (Or.inl rfl) ⟨h.1, h.2.1⟩ h.2.2,
+         lowerExp_roundtrip cfg d 'E' (Or.inr rfl) ⟨h.1, h.2.1⟩ h.2.2⟩
+
+/-- `Display` under any thresholds and padding limit: identical pair, or (only for a negative
+    scale, when the zeros are written out) the same integer value at scale 0 -/
+theorem C04_display_roundtrip (cfg : Config) (npl : Nat) (d : Dec) (h : d.Storable) :
+    parseDec (toBytes (display cfg npl {} d)) 10 = some d ∨
+    (d.scale < 0 ∧ parseDec (toBytes (display cfg npl {} d)) 10 = some ⟨d.int * (10 ^ (-d.scale).toNat : Nat), 0⟩) := by
+  rw [C05_parse_eq_spec]; exact display_roundtrip cfg npl d ⟨h.1, h.2.1⟩ h.2.2
+
+/-- in both cases the value is unchanged -/
+theorem C04_display_value (cfg : Config) (npl : Nat) (d : Dec) (h : d.Storable) :
+    ∃ d', parseDec (toBytes (display cfg npl {} d)) 10 = some d' ∧ d'.value = d.value := by
+  rcases C04_display_roundtrip cfg npl d h with h1 | ⟨hneg, h2⟩
+  · exact ⟨d, h1, rfl⟩
+  · refine ⟨_, h2, ?_⟩
+    obtain ⟨k, hk⟩ : ∃ k : Nat, -d.scale = (k : Int) := ⟨(-d.scale).toNat, by omega⟩
+    have hk' : (-d.scale).toNat = k := by omega
+    unfold Dec.value
+    simp only [neg_zero, zpow_zero, mul_one]
+    rw [hk', hk, zpow_natCast]
+    push_cast
+    ring
+
+/-- a positive scale (a decimal with a fraction part) or scale 0 always comes back identically -/
+theorem C04_display_identical_of_nonneg_scale (cfg : Config) (npl : Nat) (d : Dec) (h : d.Storable)
+    (hs : 0 ≤ d.scale) : parseDec (toBytes (display cfg npl {} d)) 10 = some d := by
+  rcases C04_display_roundtrip cfg npl d h with h1 | ⟨hneg, _⟩
+  · exact h1
+  · omega
+
+/-- non-vacuity: -12.5e-3 satisfies the hypotheses and the rendering is the expected text -/
+example : (⟨-125, 4⟩ : Dec).Storable ∧ scientific ⟨-125, 4⟩ = ['-', '1', '.', '2', '5', 'e', '-', '2'] ∧
+    plain ⟨-125, 4⟩ = ['-', '0', '.', '0', '1', '2', '5'] := by
+  refine ⟨⟨by decide, by decide, by decide +kernel⟩, by decide +kernel, by decide +kernel⟩
+
 end BigDec
